@@ -1,4 +1,206 @@
-(* C04 - placeholder while the proofs are being developed *)
-From PsdV Require Import Base.Prelude Rle.Model Compression.Model.
-Example c04_placeholder : row_size 10 1 = 2.
-Proof. reflexivity. Qed.
+(* C04 - channel compression is lossless for every codec, depth, size and file version.
+   Only the property theorems; every proof is [exact] of a lemma of Compression/Proofs*.v (or a vm_compute
+   witness).  All statements are for every width, height and content (no bound); depth in {1, 8, 16, 32};
+   zlib is abstract: any pair [zc zd] with [zd (zc x) = Some x] (the law is tested by the harness on every
+   payload of a run).  The row decoder is any decoder that accepts conforming PackBits rows; both decoders
+   of the code do (C05), see [py_conforming], [cy_conforming]. *)
+From PsdV Require Import Base.Prelude Rle.Model Rle.Proofs.
+From PsdV Require Import Compression.Model Compression.Corr Compression.Proofs Compression.ProofsPredict
+  Compression.ProofsCodec Compression.ProofsLoops.
+
+Definition zlib_law (zc : list Z -> list Z) (zd : list Z -> option (list Z)) : Prop :=
+  forall x, zd (zc x) = Some x.
+
+(* ---------------------------------------------------------------- the row decoders of the code *)
+Theorem py_conforming : conforming_decoder py_decode.
+Proof. exact Compression.Proofs.py_conforming. Qed.
+Print Assumptions py_conforming.
+
+Theorem cy_conforming : conforming_decoder cy_decode.
+Proof. exact Compression.Proofs.cy_conforming. Qed.
+Print Assumptions cy_conforming.
+
+(* ---------------------------------------------------------------- 1. codec level round trip *)
+(* [raster data w h depth]: depth in {1,8,16,32}, 0 <= w, 0 <= h, data = h rows of (w*depth+7)/8 bytes.
+   [codec_guard]: RLE needs 0 < w or h = 0; ZIP with prediction needs depth <> 1 and (depth = 32 -> 0 < w). *)
+Theorem roundtrip : forall zc zd, zlib_law zc zd -> forall rdec, conforming_decoder rdec ->
+  forall c data w h depth version e,
+  raster data w h depth -> codec_guard c w h depth ->
+  compress zc c data w h depth version = Ok e ->
+  decompress zd rdec c e w h depth version = Ok data.
+Proof. exact ProofsCodec.roundtrip. Qed.
+Print Assumptions roundtrip.
+Example roundtrip_hyp :
+  raster [1; 2; 3; 4; 5; 6; 7; 8; 9; 10; 11; 12] 3 2 16 /\ codec_guard ZIPP 3 2 16 /\
+  compress zid ZIPP [1; 2; 3; 4; 5; 6; 7; 8; 9; 10; 11; 12] 3 2 16 1 = Ok [1; 2; 2; 2; 2; 2; 7; 8; 2; 2; 2; 2].
+Proof.
+  split; [|split; [split; [discriminate|discriminate]|reflexivity]].
+  split; [right; right; left; reflexivity|]. split; [lia|]. split; [lia|].
+  split; [apply bytes_dec|]; reflexivity.
+Qed.
+
+(* compress does return a stream, unless an RLE row is too long for the row table of the file version *)
+Theorem compress_ok : forall zc c data w h depth version,
+  raster data w h depth -> codec_guard c w h depth ->
+  (c = RLE -> 128 * row_size w depth + 126 < 127 * cmax version) ->
+  exists e, compress zc c data w h depth version = Ok e.
+Proof. exact ProofsCodec.compress_ok. Qed.
+Print Assumptions compress_ok.
+
+(* the [fits] guard is discharged from the encoder's worst case (C05 encode_bound): PSD rows up to
+   65022 bytes (e.g. 30000 px at 16 bits), PSB rows up to 4261412863 bytes always fit *)
+Theorem v1_safe_row : forall rs, rs <= 65022 -> 128 * rs + 126 < 127 * cmax 1.
+Proof. exact Compression.Proofs.v1_safe_row. Qed.
+Print Assumptions v1_safe_row.
+Theorem v2_safe_row : forall rs, rs <= 4261412863 -> 128 * rs + 126 < 127 * cmax 2.
+Proof. exact Compression.Proofs.v2_safe_row. Qed.
+Print Assumptions v2_safe_row.
+
+(* ... and beyond it the code raises OverflowError (modelled, and observed on the code): 65536 ramp bytes *)
+Theorem compress_rle_v1_overflow : exists data w, raster data w 1 8 /\
+  forall zc, compress zc RLE data w 1 8 1 = Err OverflowErr.
+Proof.
+  exists (ramp (Z.to_nat 65536) 0 1), 65536. split.
+  - split; [right; left; reflexivity|]. split; [lia|]. split; [lia|].
+    split; [apply bytes_dec|]; vm_compute; reflexivity.
+  - intros zc. vm_compute. reflexivity.
+Qed.
+Print Assumptions compress_rle_v1_overflow.
+
+(* full strength is false of the faithful model: a raster of width 0 (finding F-C04-2) *)
+Theorem roundtrip_rle_zero_width_refuted : exists data w h depth version e,
+  raster data w h depth /\ compress zid RLE data w h depth version = Ok e /\
+  decompress zsome py_decode RLE e w h depth version = Err ValueErr /\
+  decompress zsome cy_decode RLE e w h depth version = Err ValueErr.
+Proof.
+  exists [], 0, 2, 8, 1, [0; 0; 0; 0].
+  split; [|split; [|split]]; try (vm_compute; reflexivity).
+  split; [right; left; reflexivity|]. split; [lia|]. split; [lia|]. split; [constructor|reflexivity].
+Qed.
+Print Assumptions roundtrip_rle_zero_width_refuted.
+
+Theorem roundtrip_zipp32_zero_width_refuted : exists data w h depth version,
+  raster data w h depth /\ compress zid ZIPP data w h depth version = Err ValueErr.
+Proof.
+  exists [], 0, 0, 32, 1. split; [|vm_compute; reflexivity].
+  split; [right; right; right; reflexivity|]. split; [lia|]. split; [lia|]. split; [constructor|reflexivity].
+Qed.
+Print Assumptions roundtrip_zipp32_zero_width_refuted.
+
+(* ZIP with prediction has no 1-bit form: rejected with ValueError whatever the raster *)
+Theorem zipp_1bit_rejected : forall zc data w h version, compress zc ZIPP data w h 1 version = Err ValueErr.
+Proof. exact ProofsCodec.zipp_1bit_rejected. Qed.
+Print Assumptions zipp_1bit_rejected.
+
+(* the repaired defect F-C04-1 (1-bit rows whose width is not a multiple of 8): 10 x 2 pixels, 2 bytes per row *)
+Example roundtrip_1bit_10x2 :
+  raster [255; 192; 170; 128] 10 2 1 /\ codec_guard RLE 10 2 1 /\
+  compress zid RLE [255; 192; 170; 128] 10 2 1 1 = Ok [0; 3; 0; 3; 1; 255; 192; 1; 170; 128].
+Proof.
+  split; [|split; [left; lia|reflexivity]].
+  split; [left; reflexivity|]. split; [lia|]. split; [lia|]. split; [apply bytes_dec|]; reflexivity.
+Qed.
+
+(* ---------------------------------------------------------------- 2. any conforming encoder *)
+(* a stream = row table (2- or 4-byte big-endian counts) followed by rows; each row is ANY PackBits
+   stream that the textbook expander (Rle.Model.expand, independent of the code) maps to the raster row *)
+Theorem decode_any_conforming : forall rdec, conforming_decoder rdec ->
+  forall w h depth version (encs rows : list (list Z)),
+  0 < row_size w depth ->
+  length encs = Z.to_nat h ->
+  Forall bytes encs ->
+  Forall2 (fun e r => expand e = Some r) encs rows ->
+  Forall (fun r => len r = row_size w depth) rows ->
+  fits version encs = true ->
+  decode_rle rdec (rle_stream version encs) w h depth version = Ok (concat rows).
+Proof. exact Compression.Proofs.decode_any_conforming. Qed.
+Print Assumptions decode_any_conforming.
+Example decode_any_conforming_hyp :   (* rows written with a no-op header and a 2-byte run, which this encoder never emits *)
+  let encs := [[128; 255; 7; 0; 9]; [2; 1; 2; 3]] in let rows := [[7; 7; 9]; [1; 2; 3]] in
+  0 < row_size 3 8 /\ length encs = Z.to_nat 2 /\ Forall bytes encs /\
+  Forall2 (fun e r => expand e = Some r) encs rows /\ Forall (fun r => len r = row_size 3 8) rows /\
+  fits 1 encs = true /\ rle_stream 1 encs = [0; 5; 0; 4; 128; 255; 7; 0; 9; 2; 1; 2; 3].
+Proof.
+  cbv zeta. split; [reflexivity|]. split; [reflexivity|].
+  split; [constructor; [apply bytes_dec; reflexivity|constructor; [apply bytes_dec; reflexivity|constructor]]|].
+  split; [repeat constructor|]. split; [repeat constructor|]. split; reflexivity.
+Qed.
+
+(* prediction: decode_prediction inverts the per-row difference coding of the format description
+   (big-endian words mod 2^depth; 32 bits: four byte planes per row, then bytewise differences) *)
+Theorem prediction_roundtrip : forall data w h depth,
+  (depth = 8 \/ depth = 16 \/ depth = 32) -> 0 <= w -> 0 <= h -> (depth = 32 -> 0 < w) ->
+  bytes data -> len data = w * h * (depth / 8) ->
+  exists e, encode_prediction data w h depth = Ok e /\ len e = len data /\
+            decode_prediction e w h depth = Ok data.
+Proof. exact ProofsCodec.prediction_roundtrip. Qed.
+Print Assumptions prediction_roundtrip.
+
+(* ---------------------------------------------------------------- 3. delta_inv, shuffle_inv *)
+Theorem delta_dec_enc_row : forall m l, 0 < m -> inrange m l -> delta_dec_row m (delta_enc_row m l) = l.
+Proof. exact ProofsPredict.delta_dec_enc_row. Qed.
+Print Assumptions delta_dec_enc_row.
+Theorem delta_enc_dec_row : forall m l, 0 < m -> inrange m l -> delta_enc_row m (delta_dec_row m l) = l.
+Proof. exact ProofsPredict.delta_enc_dec_row. Qed.
+Print Assumptions delta_enc_dec_row.
+Example delta_hyp : 0 < 65536 /\ inrange 65536 [65535; 0; 65535; 1; 1].
+Proof. split; [lia|]. repeat constructor; lia. Qed.
+
+Theorem restore_shuffle_row : forall w l, length l = (4 * w)%nat -> restore_row w (shuffle_row l) = l.
+Proof. exact ProofsPredict.restore_shuffle_row. Qed.
+Print Assumptions restore_shuffle_row.
+Theorem shuffle_restore_row : forall w l, length l = (4 * w)%nat -> shuffle_row (restore_row w l) = l.
+Proof. exact ProofsPredict.shuffle_restore_row. Qed.
+Print Assumptions shuffle_restore_row.
+
+(* the structural forms used above are the code's loops:
+   - the index form of the generator _shuffled_order (k-th index r*4w + o + b*w) *)
+Theorem shuffle_row_index_form : forall w l, length l = (4 * w)%nat -> shuffle_row_ix w l = shuffle_row l.
+Proof. exact ProofsLoops.shuffle_row_index_form. Qed.
+Print Assumptions shuffle_row_index_form.
+Theorem restore_row_index_form : forall w l, length l = (4 * w)%nat -> restore_row_ix w l = restore_row w l.
+Proof. exact ProofsLoops.restore_row_index_form. Qed.
+Print Assumptions restore_row_index_form.
+(* - the in-place loops of _delta_encode (x descending) and _delta_decode (x ascending) on one row *)
+Theorem delta_encode_loop_form : forall m row, enc_inplace m row = delta_enc_row m row.
+Proof. exact ProofsLoops.delta_encode_loop_form. Qed.
+Print Assumptions delta_encode_loop_form.
+Theorem delta_decode_loop_form : forall m row, dec_inplace m row = delta_dec_row m row.
+Proof. exact ProofsLoops.delta_decode_loop_form. Qed.
+Print Assumptions delta_decode_loop_form.
+
+(* ---------------------------------------------------------------- 4. containers, with their own geometry *)
+Theorem channel_data_roundtrip : forall zc zd, zlib_law zc zd -> forall rdec, conforming_decoder rdec ->
+  forall cd cd' data w h depth version,
+  raster data w h depth -> codec_guard (cd_comp cd) w h depth ->
+  cd_set_data zc cd data w h depth version = Ok cd' ->
+  cd_get_data zd rdec cd' w h depth version = Ok data.
+Proof. exact ProofsCodec.channel_data_roundtrip. Qed.
+Print Assumptions channel_data_roundtrip.
+
+Theorem image_data_roundtrip : forall zc zd, zlib_law zc zd -> forall rdec, conforming_decoder rdec ->
+  forall c planes hd e,
+  let w := hd_w hd in let h := hd_h hd in let ch := hd_channels hd in let depth := hd_depth hd in
+  depth_ok depth -> 0 <= w -> 0 <= h -> 0 < ch ->
+  Z.of_nat (length planes) = ch ->
+  Forall bytes planes -> Forall (fun p => len p = h * row_size w depth) planes ->
+  codec_guard c w (h * ch) depth ->
+  id_set_data zc c planes hd = Ok e ->
+  id_get_data zd rdec c e hd = Ok planes.
+Proof. exact ProofsCodec.image_data_roundtrip. Qed.
+Print Assumptions image_data_roundtrip.
+Example image_data_hyp :
+  let hd := {| hd_w := 2; hd_h := 1; hd_channels := 3; hd_depth := 8; hd_version := 2 |} in
+  let planes := [[1; 1]; [2; 3]; [4; 4]] in
+  Forall (fun p => len p = hd_h hd * row_size (hd_w hd) (hd_depth hd)) planes /\
+  id_set_data zid RLE planes hd = Ok [0; 0; 0; 2; 0; 0; 0; 3; 0; 0; 0; 2; 255; 1; 1; 2; 3; 255; 4] /\
+  id_get_data zsome cy_decode RLE [0; 0; 0; 2; 0; 0; 0; 3; 0; 0; 0; 2; 255; 1; 1; 2; 3; 255; 4] hd = Ok planes.
+Proof. cbv zeta. split; [repeat constructor|]. split; vm_compute; reflexivity. Qed.
+
+Theorem vma_roundtrip : forall zc zd, zlib_law zc zd -> forall rdec, conforming_decoder rdec ->
+  forall c data w h depth v,
+  raster data w h depth -> codec_guard c w h depth ->
+  vm_set_data zc (w, h) data depth c = Ok v ->
+  vm_get_data zd rdec v = Some (Ok data).
+Proof. exact ProofsCodec.vma_roundtrip. Qed.
+Print Assumptions vma_roundtrip.
